@@ -191,6 +191,9 @@ func TestGovcBoundedPacers(t *testing.T) {
 				if tm < 0 {
 					break // virtual clock overflow
 				}
+				if sp.class == "linear/slope<0" && sp.p.(LinearPacer).Rate(tm) <= 0 {
+					break // an injected stall carried the clock past the instant where the declared rate reaches zero
+				}
 				h++
 				sRel := sp.s(tm)
 				tol = eps + math.Abs(sRel)*1e-9
